@@ -195,6 +195,21 @@ def direct_atom(rng, G, cell, kinds=('Uiso', 'Uani', None)):
             'pos_kind': pk, 'site_symmetry_order': len(stab)}
 
 
+def shared_site(rng, a):
+    """a second species on exactly the position of atom `a` (a mixed-occupancy site): same coordinates bit for bit, another element,
+    another occupancy, the same kind of displacement parameters with other values (a tensor scaled by a factor keeps the symmetry of
+    the site)"""
+    b = dict(a)
+    b['atomtype'] = rng.choice(c07.elements())
+    b['occ'] = rng.uniform(0.05, 1.0)
+    f = rng.uniform(0.3, 3.0)
+    if a['adp_type'] == 'Uani':
+        b['adp'] = [f * x for x in a['adp']]
+    elif a['adp_type'] == 'Uiso':
+        b['adp'] = f * a['adp']
+    return b
+
+
 def free_atom(rng, G, kinds=('Uiso', 'Uani', None)):
     """atom for the real-vs-real consequences: any position, any positive multiplicity"""
     adp_type, adp = c07.rand_adp(rng, kinds)
@@ -286,6 +301,7 @@ def oracle(ctx, hints=()):
     stats = {'max_err_over_tol': {}, 'n': {}}
     ev, nontriv, sample = 0, 0, None
     pos_kinds, special_atoms, uani_special, per_cs = {}, 0, 0, {}
+    shared_sites = 0
     for e in todo:
         G = c07.group(e['name'])
         per_cs[G['cs']] = per_cs.get(G['cs'], 0) + 1
@@ -293,6 +309,9 @@ def oracle(ctx, hints=()):
             cell = gens.cell(rng)[0]
             nat = rng.randint(1, 4) if G['nsymop'] <= 48 or ctx.thorough else rng.randint(1, 2)
             atoms = [direct_atom(rng, G, cell) for _ in range(nat)]
+            if nat >= 2 and rng.random() < 0.3:
+                atoms[1] = shared_site(rng, atoms[0])
+                shared_sites += 1
             for a in atoms:
                 pos_kinds[a['pos_kind']] = pos_kinds.get(a['pos_kind'], 0) + 1
                 special_atoms += 1 if a['site_symmetry_order'] > 1 else 0
@@ -310,6 +329,9 @@ def oracle(ctx, hints=()):
             nat = rng.randint(2, 4) if G['nsymop'] <= 48 or ctx.thorough else 2
             cell = gens.cell(rng)[0]
             atoms = [free_atom(rng, G) for _ in range(nat)]
+            if rng.random() < 0.3:
+                atoms[-1] = shared_site(rng, atoms[0])
+                shared_sites += 1
             disper = c07.rand_disper(rng, atoms)
             h = c07.rand_hkl(rng, 8)
             base = {'sgname': e['name'], 'cell': cell, 'hkl': h, 'atoms': atoms, 'disper': disper}
@@ -340,7 +362,7 @@ def oracle(ctx, hints=()):
     return {'evaluations': ev, 'distinct_nontrivial': nontriv, 'violations': viol, 'samples': [sample], 'exhaustive': False,
             'stats': {'settings': len(todo), 'per_crystal_system': per_cs, 'checks': stats['n'], 'max_err_over_tol': stats['max_err_over_tol'],
                       'position_kinds': pos_kinds, 'atoms_on_special_positions': special_atoms,
-                      'uani_atoms_on_special_positions': uani_special}}
+                      'uani_atoms_on_special_positions': uani_special, 'atom_sets_with_a_shared_site': shared_sites}}
 
 
 def replay(payload):
